@@ -30,6 +30,15 @@ pub fn verify_char(input: &[u8], ch: u8, inposp: &mut usize) -> Result<(), Error
     }
 }
 
+/// The input byte at `pos`, or an error if the input ends before it
+#[inline]
+pub(crate) fn peek(input: &[u8], pos: usize) -> Result<u8, Error> {
+    match input.get(pos) {
+        Some(b) => Ok(*b),
+        None => Err(InnerError::JsonBad("Too short", pos).into()),
+    }
+}
+
 pub(crate) fn eat_colon_with_whitespace(input: &[u8], inposp: &mut usize) -> Result<(), Error> {
     eat_whitespace(input, inposp);
     verify_char(input, b':', inposp)?;
@@ -181,7 +190,7 @@ pub(crate) fn read_tags_array(
         eat_whitespace(input, inposp);
 
         // Check what is next
-        match input[*inposp] {
+        match peek(input, *inposp)? {
             b']' => {
                 *inposp += 1;
                 if tag_num != num_tags - 1 {
@@ -214,7 +223,7 @@ pub(crate) fn read_tags_array(
 // This does a quicker pass over the content than actual tag parsing does.
 pub(crate) fn count_tags(input: &[u8], mut inpos: usize) -> Result<usize, Error> {
     // First non-whitespace character after the opening brace
-    match input[inpos] {
+    match peek(input, inpos)? {
         b']' => return Ok(0), // no tags
         b'[' => (),           // expected
         _ => return Err(InnerError::JsonBad("Tag array bad initial character", inpos).into()),
@@ -226,7 +235,7 @@ pub(crate) fn count_tags(input: &[u8], mut inpos: usize) -> Result<usize, Error>
     eat_whitespace(input, &mut inpos);
 
     loop {
-        match input[inpos] {
+        match peek(input, inpos)? {
             b']' => return Ok(count),
             b',' => {
                 inpos += 1;
@@ -251,7 +260,7 @@ pub(crate) fn read_tag(
     *outposp += 2;
 
     // handle empty tag
-    if input[*inposp] == b']' {
+    if peek(input, *inposp)? == b']' {
         *inposp += 1;
         put(output, countpos, 0_u16.to_ne_bytes().as_slice())?;
 
@@ -268,11 +277,13 @@ pub(crate) fn read_tag(
         put(output, *outposp, (outlen as u16).to_ne_bytes().as_slice())?;
         // bump the outposp past it
         *outposp += 2 + outlen;
-        // bump the inpos past the string (and the ending quote which isn't counted in the len)
-        *inposp += inlen + 1;
+        // bump the inpos past the string and its ending quote (which isn't counted in
+        // the len, and which is missing if the input ended inside the string)
+        *inposp += inlen;
+        verify_char(input, b'"', inposp)?;
 
         eat_whitespace(input, inposp);
-        match input[*inposp] {
+        match peek(input, *inposp)? {
             b',' => {
                 *inposp += 1;
                 eat_whitespace(input, inposp);
@@ -308,7 +319,8 @@ pub(crate) fn read_content(
 
     // Place content 4 bytes beyond tags, to reserve space for content length
     let (inlen, outlen) = json_unescape(&input[*inposp..], &mut output[after_tags + 4..])?;
-    *inposp += inlen + 1; // +1 to pass the end quote
+    *inposp += inlen;
+    verify_char(input, b'"', inposp)?; // pass the end quote
 
     // Write content length
     put(output, after_tags, (outlen as u32).to_ne_bytes().as_slice())?;
@@ -346,7 +358,7 @@ pub(crate) fn burn_string(input: &[u8], inposp: &mut usize) -> Result<(), Error>
             *inposp += 1;
         }
     }
-    if input[*inposp] == b'"' {
+    if *inposp < input.len() && input[*inposp] == b'"' {
         *inposp += 1;
         Ok(())
     } else {
@@ -359,14 +371,14 @@ pub(crate) fn burn_string(input: &[u8], inposp: &mut usize) -> Result<(), Error>
 pub(crate) fn burn_tag(input: &[u8], inposp: &mut usize) -> Result<(), Error> {
     eat_whitespace(input, inposp);
     // handle empty tag
-    if input[*inposp] == b']' {
+    if peek(input, *inposp)? == b']' {
         *inposp += 1;
         return Ok(());
     }
     verify_char(input, b'"', inposp)?;
     burn_string(input, inposp)?;
     eat_whitespace(input, inposp);
-    while input[*inposp] == b',' {
+    while peek(input, *inposp)? == b',' {
         *inposp += 1;
         eat_whitespace(input, inposp);
         verify_char(input, b'"', inposp)?;
@@ -392,7 +404,7 @@ pub(crate) fn burn_object(input: &[u8], inposp: &mut usize) -> Result<(), Error>
         eat_whitespace_and_commas(input, inposp);
 
         // Check for the end
-        if input[*inposp] == b'}' {
+        if peek(input, *inposp)? == b'}' {
             *inposp += 1;
             return Ok(());
         }
@@ -408,7 +420,7 @@ pub(crate) fn burn_array(input: &[u8], inposp: &mut usize) -> Result<(), Error> 
         eat_whitespace_and_commas(input, inposp);
 
         // Check for the end
-        if input[*inposp] == b']' {
+        if peek(input, *inposp)? == b']' {
             *inposp += 1;
             return Ok(());
         }
